@@ -174,17 +174,7 @@ impl Property for C06 {
             while case.pieces.last().map_or(false, |p| p.kind == Kind::Gap) {
                 case.pieces.pop();
             }
-            let v = match rng.below(3) {
-                0 => Val::Str(gen_string(rng) + "x"),
-                1 => Val::Arr(vec![gen_val(rng, 2, false), gen_val(rng, 1, false)]),
-                _ => Val::Obj(vec![("k".into(), gen_val(rng, 2, false)), ("s".into(), Val::Str(gen_string(rng)))]),
-            };
-            let text = spell(&v, rng, 1);
-            let cut = rng.range(1, text.len() - 1);
-            let mut g = vec![*rng.pick(&[b' ', b'\n'])];
-            g.extend_from_slice(&text[..cut]);
-            let mut p = Piece::garbage(g);
-            p.tag = "truncated".into();
+            let p = gen_truncated_tail(rng);
             case.pieces.push(p);
         }
         if rng.chance(1, 3) {
